@@ -44,6 +44,10 @@ SHAPES = {
     # cycle that is never reclaimed) - recorded as the open finding `closure-frame-cycle`, reported as KNOWN-FINDING
     "self-internal-procedure": (["(define (loop n acc) (define (dec k) (- k 1)) (tick n) (if (= n 0) acc CTX))"],
                                 "(loop (dec n) (+ acc 1))", "(loop %d 0)"),
+    # two closures of ONE lambda (made by one factory, different captured increments) hand over to each other through
+    # parameters: the callee of each tail call is the OTHER closure (2 + 0 per pair of iterations: the result is N for even N)
+    "factory-pair": (["(define (mk d) (lambda (self other n acc) (tick n) (if (= n 0) acc CTX)))", "(define fa (mk 2))", "(define fb (mk 0))"],
+                     "(other other self (- n 1) (+ acc d))", "(fa fa fb %d 0)"),
     "mutual": (["(define (ev n acc) (tick n) (if (= n 0) acc CTXA))", "(define (od n acc) (tick n) (if (= n 0) acc CTXB))"],
                None, "(ev %d 0)"),
     "parameter": (["(define (loop f n acc) (tick n) (if (= n 0) acc CTX))"], "(f f (- n 1) (+ acc 1))", "(loop loop %d 0)"),
@@ -68,7 +72,7 @@ def program(shape, ctxs, n):
         forms = [defs[0].replace("CTXA", wrap(ctxs, "(od (- n 1) (+ acc 1))")),
                  defs[1].replace("CTXB", wrap(ctxs, "(ev (- n 1) (+ acc 1))"))]
     else:
-        forms = [defs[0].replace("CTX", wrap(ctxs, call))]
+        forms = [defs[0].replace("CTX", wrap(ctxs, call))] + defs[1:]
     return ["(import (verif host))"] + forms + [start % n]
 
 
@@ -161,7 +165,7 @@ def main(tier, seed):
     rep = C.Report(PROP, tier, seed)
     rng = random.Random(seed)
     rep.cov["rule"] = ("loops whose tail call sits in a composition of the 18 tail contexts (the 16 of the derived forms and two bodies that begin with internal definitions) (all single contexts, pairs sampled "
-                       "in quick / all pairs and sampled triples in thorough) x 10 loop shapes (self, self with internal value definitions, self with an internal procedure definition, mutual, through a procedure "
+                       "in quick / all pairs and sampled triples in thorough) x 11 loop shapes (two closures of one lambda handing over to each other, self, self with internal value definitions, self with an internal procedure definition, mutual, through a procedure "
                        "parameter, variadic, apply in its 2-argument, leading-argument, rest-forwarding and empty-tail forms) x 2 iteration counts; distinct = (shape, contexts, count)")
     rep.assumptions = ["real stack depth is the address of a local of the host procedure tick; live heap is a counting global allocator; "
                        "that activation depth bounds machine stack is measured here, not proved"]
